@@ -153,6 +153,7 @@ type fnCtx struct {
 	inlineFailed bool
 	specErrors   []string
 	lemmaName    string
+	callOrds     map[ssa.Instruction]int
 	recMeasures  []string
 	heapElemTy   map[string]types.Type
 	alloc0       string
@@ -398,6 +399,13 @@ func (fc *fnCtx) projPath(v string, p PathElem) string {
 func (fc *fnCtx) fieldOf(t types.Type, k int, v string) string {
 	ss := fc.S().structOf(t)
 	return fc.defs.Field(ss.fields[k], ss.ctor, k, v)
+}
+
+// runeStr is string(rune(r)).
+func (fc *fnCtx) runeStr(r string) string {
+	fc.S().UFun("runestr", []string{"Int"}, "Str")
+	fc.S().Axiom("runestr", "(assert (forall ((r Int)) (! (and (>= (s.len (runestr r)) 1) (<= (s.len (runestr r)) 4) (>= (s.off (runestr r)) 0) (=> (and (<= 0 r) (< r 128)) (and (= (s.len (runestr r)) 1) (= (s.at (runestr r) 0) r))) (=> (or (< r 0) (>= r 128)) (>= (s.at (runestr r) 0) 128))) :pattern ((runestr r)))))")
+	return "(runestr " + r + ")"
 }
 
 // strLen / strAt simplify through string literals (mkstr ARR 0 n).
@@ -1645,6 +1653,24 @@ func (fc *fnCtx) binop(st *State, op token.Token, a, b Val, opT, resT types.Type
 				// mask 2^n-1 on a non-negative value
 				return fmt.Sprintf("(mod %s %d)", a.T, k+1), true
 			}
+			if k, ok := smallConst(b.T); ok && k >= 0 && k < 1<<16 {
+				return bitAndConst(a.T, k), true
+			}
+			if k, ok := smallConst(a.T); ok && k >= 0 && k < 1<<16 {
+				return bitAndConst(b.T, k), true
+			}
+		case token.OR:
+			// x | c = x + c - (x & c) for a constant c and non-negative x
+			if k, ok := smallConst(b.T); ok && k >= 0 && k < 1<<16 {
+				return fmt.Sprintf("(- (+ %s %d) %s)", a.T, k, bitAndConst(a.T, k)), true
+			}
+			if k, ok := smallConst(a.T); ok && k >= 0 && k < 1<<16 {
+				return fmt.Sprintf("(- (+ %s %d) %s)", b.T, k, bitAndConst(b.T, k)), true
+			}
+		case token.AND_NOT:
+			if k, ok := smallConst(b.T); ok && k >= 0 && k < 1<<16 {
+				return fmt.Sprintf("(- %s %s)", a.T, bitAndConst(a.T, k)), true
+			}
 		}
 	case isString(opT):
 		switch op {
@@ -1671,6 +1697,24 @@ func (fc *fnCtx) binop(st *State, op token.Token, a, b Val, opT, resT types.Type
 // derive from the multiplicative characterisation on their own.
 func divSignFacts(a, b, q string) string {
 	return fmt.Sprintf("(=> (and (>= %[1]s 0) (> %[2]s 0)) (and (>= %[3]s 0) (<= %[3]s %[1]s))) (=> (and (<= %[1]s 0) (> %[2]s 0)) (and (<= %[3]s 0) (>= %[3]s %[1]s))) (=> (and (>= %[1]s 0) (< %[2]s 0)) (and (<= %[3]s 0) (>= %[3]s (- %[1]s)))) (=> (and (<= %[1]s 0) (< %[2]s 0)) (and (>= %[3]s 0) (<= %[3]s (- %[1]s)))) (=> (and (> %[1]s 0) (>= %[2]s 2)) (< %[3]s %[1]s))", a, b, q)
+}
+
+// bitAndConst is x & k for a non-negative x and a small constant k, bit by bit.
+func bitAndConst(x string, k int64) string {
+	var parts []string
+	for b := 0; b < 17; b++ {
+		if k&(1<<uint(b)) != 0 {
+			p := int64(1) << uint(b)
+			parts = append(parts, fmt.Sprintf("(* (mod (div %s %d) 2) %d)", x, p, p))
+		}
+	}
+	switch len(parts) {
+	case 0:
+		return "0"
+	case 1:
+		return parts[0]
+	}
+	return "(+ " + strings.Join(parts, " ") + ")"
 }
 
 func smallConst(t string) (int64, bool) {
@@ -1858,10 +1902,8 @@ func (fc *fnCtx) execConvert(st *State, x *ssa.Convert) {
 	case isString(from) && isString(to):
 		fc.setVal(x, v.T)
 	case isString(to) && isInteger(from):
-		// string(rune): 1..4 bytes; ASCII -> 1 byte
-		r := fc.freshVal(st, x.Name(), to)
-		fc.assume(st, fmt.Sprintf("(and (>= (s.len %s) 1) (<= (s.len %s) 4) (=> (and (<= 0 %s) (< %s 128)) (and (= (s.len %s) 1) (= (s.at %s 0) %s))))", r.T, r.T, v.T, v.T, r.T, r.T, v.T))
-		fc.vals[x] = r
+		// string(rune): a function of the rune; 1..4 bytes; ASCII -> that single byte
+		fc.setVal(x, fc.runeStr(v.T))
 	case isString(to):
 		// []byte / []rune -> string
 		r := fc.freshVal(st, x.Name(), to)
@@ -1990,7 +2032,12 @@ func (fc *fnCtx) execSlice(st *State, x *ssa.Slice) {
 		g := fmt.Sprintf("(and (<= 0 %s) (<= %s %s) (<= %s (s.len %s)))", lo, lo, hi, hi, base.T)
 		fc.oblige(st, "slice", "", g, "string slice bounds in range", x.Pos(), false)
 		fc.assume(st, g)
-		fc.setVal(x, fmt.Sprintf("(mkstr (s.arr %s) (+ (s.off %s) %s) (- %s %s))", base.T, base.T, lo, hi, lo))
+		sub := fc.setVal(x, fmt.Sprintf("(mkstr (s.arr %s) (+ (s.off %s) %s) (- %s %s))", base.T, base.T, lo, hi, lo))
+		if !isAtom(base.T) || fc.defs.byName[base.T] != nil {
+			// positions of the substring are positions of the string, shifted (creates the
+			// term that lets quantified facts about the whole string fire on the substring)
+			fc.assume(st, fmt.Sprintf("(forall ((i Int)) (! (= (s.ix %s i) (s.ix %s (+ i %s))) :pattern ((s.ix %s i))))", sub.T, base.T, lo, sub.T))
+		}
 	case *types.Slice:
 		if x.High != nil {
 			hi = fc.get(st, x.High).T
